@@ -102,6 +102,10 @@ func inferContracts(fn *ssa.Function) Contracts {
 					}
 					for _, table := range nilnessTablesUnderPred[pred] {
 						candNil := table.nilnessOf(cand)
+						// The phi value is (re)defined when the block is entered from this
+						// predecessor: whatever the table knows about it was learned for the value
+						// it had before (e.g., in the previous iteration of a loop) and is stale.
+						delete(table, instr)
 						if candNil == unknown {
 							// Do not save the nilness if it is unknown. There are two cases:
 							// 1. the phi value cannot have nil as a valid value, e.g. it is an
